@@ -538,14 +538,15 @@ def shadowing_rules(facts, rep, w, rule="R09.12"):
     ov = Overlay(facts, w)
     n = 0
     res = [b for b in ov.helpers.values() if ov._is_resolver(b)]
-    res_ids = {b.id for b in res}
+    # one obligation per overlay type (a resolver split into several private helpers is still one resolver), filed under the type
+    # and not under a private function's name: the known-finding key must survive renames and extractions
+    looks, ancestors, span = 0, 0, ""
     for b in res:
-        # (a resolver's own layer-loop helper is read as part of it: deep sites)
-        looks, ancestors = 0, 0
         for cbx, sx, trx, subx, outerx, _ax, _sfx in ov.deep_sites_x(b):
             nm = sname(sx.path)
             if nm == "exists" and sx.args and "anylayer" in ov.origin_class(trx.operand(sx.args[0])):
                 looks += 1
+                span = span or b.span
             if nm == "parent" and sx.args and ov.origin_class(trx.operand(sx.args[0])) & {"anylayer", "upper"}:
                 ancestors += 1
             if nm in ("is_file", "is_dir", "metadata") and sx.args and ov.origin_class(trx.operand(sx.args[0])) & {"anylayer"}:
@@ -553,13 +554,12 @@ def shadowing_rules(facts, rep, w, rule="R09.12"):
             c_ = ov.inter.local_callee(sx)
             if c_ is not None and c_.id == b.id:
                 ancestors += 1      # recursion on a (shortened) path
-        if not looks:
-            continue                # an inner helper without lookups of its own / not the layer resolver
+    if looks:
         n += 1
-        rep.ob(rule, b.id, "resolver: a layer's non-directory ancestor hides the path", ancestors >= 1, "" if ancestors else
+        rep.ob(rule, w.overlay, "resolver: a layer's non-directory ancestor hides the path", ancestors >= 1, "" if ancestors else
                "the resolver asks every layer for the path itself and never looks at the path's ancestors in that layer: a file in an "
                "upper layer does not hide the directory a lower layer has at the same path — `/d` is a file and `/d/x` exists, and a "
-               "directory re-created over the removed file lists the lower layer's old entries", b.span)
+               "directory re-created over the removed file lists the lower layer's old entries", span)
     return n
 
 
